@@ -76,7 +76,7 @@ func c07Expected(hist []*cargen.Tx, limit int, before, until *solana.Signature) 
 func TestVerifC07(t *testing.T) {
 	rec := ev.New("C07", "paging")
 	defer rec.Flush()
-	rec.Rule("3 epochs x all 125 per-epoch history shapes (0..4 entries each); every (address, limit in {1,2,3,5,12,1000}, before in history+nil, until in history+nil) at reader level (GsfaReaderMultiepoch.GetBeforeUntil) and through JSON-RPC with every non-empty subset of epochs loaded; slot-bounded variant on a slot grid, over all readers and over the readers the server selects for the range; distinct = (shape, limit, before, until, level, epochs) tuples with a non-empty expected slice")
+	rec.Rule("3 epochs x all 125 per-epoch history shapes (0..4 entries each); every (address, limit in {1,2,3,5,12,1000}, before in history+nil, until in history+nil) at reader level (GsfaReaderMultiepoch.GetBeforeUntil) and through JSON-RPC (default mode and --gsfa-only-signatures) with every non-empty subset of epochs loaded; slot-bounded variant on a slot grid, over all readers and over the readers the server selects for the range; distinct = (shape, limit, before, until, level, epochs) tuples with a non-empty expected slice")
 	seed := ev.Seed()
 	root := filepath.Join(ev.Scratch(), "c07")
 	os.MkdirAll(root, 0o755)
@@ -174,6 +174,12 @@ func TestVerifC07(t *testing.T) {
 			loadedNums = append(loadedNums, epochNums[ei])
 		}
 		h := newMultiEpochHandler(multi, nil)
+		// the same epochs behind a server started with --gsfa-only-signatures (answers carry signatures only)
+		multiSig := NewMultiEpoch(&Options{EpochSearchConcurrency: 2, GsfaOnlySignatures: true})
+		for i, ep := range eps {
+			multiSig.AddEpoch(loadedNums[i], ep)
+		}
+		hSig := newMultiEpochHandler(multiSig, nil)
 		fetcher := func(epochNum uint64, oas linkedlog.OffsetAndSizeAndSlot) (*ipldbindcode.Transaction, error) {
 			epoch, err := multi.GetEpoch(epochNum)
 			if err != nil {
@@ -311,6 +317,29 @@ func TestVerifC07(t *testing.T) {
 										}
 										rec.Violation(key, fmt.Sprintf("shape %v epochs %v limit %d rep %d: got %d entries, want %d", c.Shape, loadedNums, limit, rep, len(got), len(want)), c)
 										break
+									}
+								}
+								{
+									rec.Eval(1)
+									_, resp := vfCall(hSig, body)
+									var r struct {
+										Result []struct {
+											Signature string `json:"signature"`
+										} `json:"result"`
+										Error any `json:"error"`
+									}
+									c.Level = "jsonrpc/signatures-only"
+									if err := json.Unmarshal(resp, &r); err != nil || r.Error != nil {
+										rec.Violation("jsonrpc/getSignaturesForAddress/error(signatures-only)", fmt.Sprintf("response %.200s", resp), c)
+									} else {
+										var got []string
+										for _, x := range r.Result {
+											got = append(got, x.Signature)
+										}
+										if strings.Join(got, ",") != strings.Join(want, ",") {
+											c.Want, c.Got = want, got
+											rec.Violation("jsonrpc/getSignaturesForAddress/wrong-slice(signatures-only)", fmt.Sprintf("shape %v epochs %v limit %d: got %d entries, want %d", c.Shape, loadedNums, limit, len(got), len(want)), c)
+										}
 									}
 								}
 								if len(want) > 0 {
